@@ -186,17 +186,17 @@ def primBits : String → Option Nat
 def boundsOut (b : Float32 × Float32) (x : Nat) : String :=
   f32Hex b.1 ++ " " ++ f32Hex b.2 ++ Dashu.Model.NT.enclosureMark b.1 b.2 x 1
 
-/-- `lg.range`: a checksum over the bounds of every value of a range (ties the Lean copy of the
-    estimator to the real one on *all* `u16` inputs), plus the number of values whose bounds do not
-    enclose the logarithm -/
+/-- `lg.range`: the bounds of every value of a range as `lb:ub` bit patterns (ties the Lean copy of the
+    estimator to the real one on *all* `u16` inputs), plus a marker if some pair does not enclose the
+    logarithm -/
 def rangeOut (std : Bool) (lo hi : Nat) : String := Id.run do
-  let mut acc : Nat := 0
+  let mut items : Array String := Array.mkEmpty (hi - lo)
   let mut bad : Nat := 0
   for x in [lo:hi] do
     let b := log2BoundsPrimCfg std x
-    acc := (acc * 1000003 + b.1.toBits.toNat * 65599 + b.2.toBits.toNat) % 2305843009213693951
+    items := items.push (f32Hex b.1 ++ ":" ++ f32Hex b.2)
     if Dashu.Model.NT.enclosureMark b.1 b.2 x 1 != "" then bad := bad + 1
-  return natToHex acc ++ (if bad = 0 then "" else " !bounds-fail-on-" ++ toString bad ++ "-values")
+  return ",".intercalate items.toList ++ (if bad = 0 then "" else " !bounds-fail-on-" ++ toString bad ++ "-values")
 
 def logOps (std : Bool) (W : Nat) (op : String) (args : List String) : Option String :=
   match op, args with
